@@ -19,6 +19,7 @@ package errorhandler
 import (
 	"context"
 	"errors"
+	"net/http"
 
 	envoy_core "github.com/envoyproxy/go-control-plane/envoy/config/core/v3"
 	envoy_auth "github.com/envoyproxy/go-control-plane/envoy/service/auth/v3"
@@ -58,6 +59,26 @@ func (h *interceptor) intercept(
 
 	accesscontext.SetError(ctx, err)
 
+	res, resErr := h.translate(ctx, req, err)
+
+	// headers, which accompany the error (e.g. a WWW-Authenticate challenge)
+	var provider interface{ ResponseHeaders() http.Header }
+	if cr, ok := res.(*envoy_auth.CheckResponse); ok && errors.As(err, &provider) {
+		if denied := cr.GetDeniedResponse(); denied != nil {
+			for name, values := range provider.ResponseHeaders() {
+				for _, value := range values {
+					denied.Headers = append(denied.Headers, &envoy_core.HeaderValueOption{
+						Header: &envoy_core.HeaderValue{Key: name, Value: value},
+					})
+				}
+			}
+		}
+	}
+
+	return res, resErr
+}
+
+func (h *interceptor) translate(ctx context.Context, req any, err error) (any, error) {
 	switch {
 	case errors.Is(err, heimdall.ErrAuthentication):
 		return h.authenticationError(err, h.verboseErrors, acceptType(req))
